@@ -484,7 +484,7 @@ func srcOp(kind, path, text string, rest *j5sgen.Bundle) string {
 const totalShards = 16
 
 func genTotal(h *vh.H, i int) string {
-	nDet := 2*len(matrix) + len(semCases) + 1 + len(negCases)
+	nDet := 2*len(matrix) + len(semCases) + 1 + len(negCases) + len(cutDetCases)
 	if j := i*totalShards + int(h.Seed%totalShards); j < nDet {
 		return genTotalDet(h, j)
 	}
@@ -521,6 +521,11 @@ func genTotalDet(h *vh.H, i int) string {
 	if i < len(negCases) {
 		return negOp(negCases[i], uint64(i))
 	}
+	i -= len(negCases)
+	if i < len(cutDetCases) {
+		// end of input inside every escape sequence / every third prefix of a file with comments (cut.go)
+		return srcOp(cutDetCases[i].class, "foo/v1/a.j5s", cutDetCases[i].text, &j5sgen.Bundle{})
+	}
 	return genTotalRandom(h)
 }
 
@@ -529,7 +534,31 @@ func genTotalRandom(h *vh.H) string {
 	cfg.MaxPkgs, cfg.MaxFiles = 1, 2
 	cfg.Rules = true
 	g := j5sgen.New(h.Rng, cfg)
-	switch h.Rng.IntN(11) {
+	switch h.Rng.IntN(13) {
+	case 11, 12:
+		// byte-level: escape material in string literals and / or end of input at an offset class (cut.go)
+		if h.Chance(1, 2) {
+			return srcOp("cut", "foo/v1/a.j5s", cutText(h, vh.Pick(h, cutTemplates)), &j5sgen.Bundle{})
+		}
+		if h.Chance(1, 3) {
+			sc := vh.Pick(h, semCases)
+			if !strings.Contains(sc.text, "\x00FILE ") && len(sc.text) > 0 {
+				return srcOp("cut", "foo/v1/a.j5s", cutText(h, sc.text), &j5sgen.Bundle{})
+			}
+		}
+		b := g.Bundle()
+		p := b.Pkgs[0]
+		var idx []int
+		for fi, f := range p.Files {
+			if !f.Proto {
+				idx = append(idx, fi)
+			}
+		}
+		fi := vh.Pick(h, idx)
+		f := p.Files[fi]
+		text := j5sgen.PrintFile(f, p.Name, 1+h.Rng.Uint64N(1000))
+		p.Files = append(p.Files[:fi], p.Files[fi+1:]...)
+		return srcOp("cut", f.Path, cutText(h, text), b)
 	case 10:
 		return negOp(breakBundle(h, g.Bundle()), 1+h.Rng.Uint64N(1<<30))
 	case 0, 1:
